@@ -420,8 +420,8 @@ pub fn worker_main(check: &dyn Check, tier: Tier, seed: u64, start: u64, end: u6
         seed,
         tier,
         scratch: scratch.clone(),
-        cli_a: PathBuf::from(format!("{}/.build/cli-a/release/okane", VERIF_ROOT)),
-        cli_b: PathBuf::from(format!("{}/.build/cli-b/release/okane", VERIF_ROOT)),
+        cli_a: std::env::var("VERIF_CLI_A").ok().filter(|s| !s.is_empty()).map(PathBuf::from).unwrap_or_else(|| PathBuf::from(format!("{}/.build/cli-a/release/okane", VERIF_ROOT))),
+        cli_b: std::env::var("VERIF_CLI_B").ok().filter(|s| !s.is_empty()).map(PathBuf::from).unwrap_or_else(|| PathBuf::from(format!("{}/.build/cli-b/release/okane", VERIF_ROOT))),
     };
     let cur_file = std::fs::OpenOptions::new()
         .create(true)
